@@ -155,6 +155,10 @@ def run_phase(ph, pid, tier, seed, tmpdir, log):
         cwd = tmpdir
     if ph.get("needs_bin"):
         args = args + [f"adlt_bin={os.path.join(BUILD, 'adlt-bin', 'release', 'adlt')}"]
+    tmp_root = os.path.join(tmpdir, f"tmp_{kind}")
+    shutil.rmtree(tmp_root, ignore_errors=True)
+    os.makedirs(tmp_root, exist_ok=True)
+    env["TMPDIR"] = tmp_root
     for i in range(shards):
         out = os.path.join(tmpdir, f"{kind}_shard_{i}.json")
         if os.path.exists(out):
@@ -201,6 +205,7 @@ def run_phase(ph, pid, tier, seed, tmpdir, log):
         if not reports:
             inconclusive += 1
             notes.append(f"{kind} shard {i}: rc={rc}, no report and no result (inconclusive): {text[-300:]!r}")
+    shutil.rmtree(tmp_root, ignore_errors=True)
     summary["wall_s"] = round(time.time() - t0, 1)
     summary["notes"].extend(notes[:6])
     if summary["executions"] == 0 and not violations:
